@@ -16,7 +16,7 @@ from ..gen_patterns import Knobs
 PROPERTY = 'C01'
 ISOLATE = False
 LEVEL = 'exploration'
-TIERS = {'quick': {'runs': 1500, 'wall': 80, 'min_budget': 60}, 'thorough': {'runs': 400000, 'wall': 1500, 'min_budget': 200}}
+TIERS = {'quick': {'runs': 9000, 'wall': 80, 'min_budget': 60}, 'thorough': {'runs': 1500000, 'wall': 1500, 'min_budget': 200}}
 RULE = ('one run = one instruction-stream triple from the guided generator (empty theory or a theory of schemas valid in all models, re-checked by R2: propositional tautologies, '
         'exists-elimination with a freshness constraint, propagation of bottom/or/exists, pre-fixpoint with a positivity constraint, C[bot] -> bot with an application-context '
         'metavariable, existence; all orders of axiom schemas, Instantiate, ModusPonens, Generalization, Substitution (capturing plugs over-represented), Save/Load/Pop, Publish) plus '
